@@ -278,11 +278,6 @@ Proof.
   rewrite E1, E2, E3, E4. reflexivity.
 Qed.
 
-(** index of the source element copied to destination position [d] by
-    [dst[dst_sl] = src[src_sl]] (reversed when mirrored) *)
-Definition paste_index (src dst : Z * Z) (flip : bool) (d : Z) : Z :=
-  if flip then (snd src - 1 - (d - fst dst))%Z else (fst src + (d - fst dst))%Z.
-
 Lemma axis_overlap_unit Ns Nd (T : Z) (flip : bool) :
   (0 <= Ns)%Z -> (0 <= Nd)%Z ->
   let s := if flip then inject_Z (-1) else inject_Z 1 in
@@ -1680,4 +1675,89 @@ Proof.
     destruct (scale_at _) as [[sx sy]|e]; [|discriminate]. cbn [bind] in H.
     destruct (pick_read_scale (Qminq sx sy) (c_rs c)) as [k|e] eqn:Ek; [|discriminate]. cbn [bind] in H.
     injection H as <-. cbn. repeat split. right. split; [exact Ee|]. exists sx, sy. repeat split. exact Ek.
+Qed.
+
+(** H_boundary_encloses: the padded envelope of the sampled destination boundary (projected into
+    the source) contains every needed source pixel, and the envelope of the sampled boundary of the
+    planned source region (projected back) contains the destination pixel. *)
+Definition boundary_encloses (back fwd : ptrans) (ss ds : shape2) (padding : Z) (align : option Z) : Prop :=
+  let pts1 := map back (boundary_pts ((0%Z, fst ds), (0%Z, snd ds)) 5) in
+  let roi_s := roi_from_points pts1 (fst ss) (snd ss) padding align in
+  let pts2 := map fwd (boundary_pts roi_s 5) in
+  forall dy dx p, (0 <= dy < fst ds)%Z -> (0 <= dx < snd ds)%Z ->
+    back (pix_center dy dx) = Some p ->
+    0 <= fst p -> fst p < inject_Z (snd ss) -> 0 <= snd p -> snd p < inject_Z (fst ss) ->
+    env_has (xs_of pts1) padding (Qfloor (fst p)) /\ env_has (ys_of pts1) padding (Qfloor (snd p)) /\
+    env_has (xs_of pts2) 0 dx /\ env_has (ys_of pts2) 0 dy.
+
+Lemma nonlinear_inclusion c back fwd scale_at ss ds padding align r :
+  reproject_nonlinear c back fwd scale_at ss ds padding align = Ok r ->
+  (0 <= fst ss)%Z -> (0 <= snd ss)%Z -> (0 <= fst ds)%Z -> (0 <= snd ds)%Z ->
+  (0 <= pad_default padding)%Z -> align_ok (norm_align align) ->
+  boundary_encloses back fwd ss ds (pad_default padding) (norm_align align) ->
+  forall dy dx p, (0 <= dy < fst ds)%Z -> (0 <= dx < snd ds)%Z ->
+    back (pix_center dy dx) = Some p ->
+    0 <= fst p -> fst p < inject_Z (snd ss) -> 0 <= snd p -> snd p < inject_Z (fst ss) ->
+    in_roi (roi_dst r) dy dx /\ in_roi (roi_src r) (Qfloor (snd p)) (Qfloor (fst p)).
+Proof.
+  intros Hr S1 S2 D1 D2 Hpad Hal Henc dy dx p Hdy Hdx Hb X0 X1 Y0 Y1.
+  destruct (reproject_nonlinear_cases _ _ _ _ _ _ _ _ _ Hr) as (_ & Hroi & _).
+  destruct (Henc dy dx p Hdy Hdx Hb X0 X1 Y0 Y1) as (E1 & E2 & E3 & E4).
+  assert (Kx : (0 <= Qfloor (fst p) < snd ss)%Z).
+  { split; [apply Qfloor_ge_iff; exact X0 | apply Qfloor_lt_iff; exact X1]. }
+  assert (Ky : (0 <= Qfloor (snd p) < fst ss)%Z).
+  { split; [apply Qfloor_ge_iff; exact Y0 | apply Qfloor_lt_iff; exact Y1]. }
+  pose proof (relative_rois_incl back fwd ss ds 5 (pad_default padding) (norm_align align)
+                (Qfloor (snd p)) (Qfloor (fst p)) dy dx S1 S2 D1 D2 Hpad Hal E1 E2 Kx Ky E3 E4 Hdx Hdy) as HI.
+  cbv zeta in HI. rewrite <- Hroi in HI. cbn [fst snd] in HI. tauto.
+Qed.
+
+Lemma nonlinear_within c back fwd scale_at ss ds padding align r :
+  reproject_nonlinear c back fwd scale_at ss ds padding align = Ok r ->
+  (0 <= fst ss)%Z -> (0 <= snd ss)%Z -> (0 <= fst ds)%Z -> (0 <= snd ds)%Z ->
+  paste_ok r = false /\
+  (0 <= fst (fst (roi_src r)) <= fst ss /\ 0 <= snd (fst (roi_src r)) <= fst ss /\
+   0 <= fst (snd (roi_src r)) <= snd ss /\ 0 <= snd (snd (roi_src r)) <= snd ss)%Z /\
+  (0 <= fst (fst (roi_dst r)) <= fst ds /\ 0 <= snd (fst (roi_dst r)) <= fst ds /\
+   0 <= fst (snd (roi_dst r)) <= snd ds /\ 0 <= snd (snd (roi_dst r)) <= snd ds)%Z.
+Proof.
+  intros Hr S1 S2 D1 D2.
+  destruct (reproject_nonlinear_cases _ _ _ _ _ _ _ _ _ Hr) as (Hp & Hroi & _).
+  split; [exact Hp|].
+  pose proof (relative_rois_within back fwd ss ds 5 (pad_default padding) (norm_align align) S1 S2 D1 D2) as W.
+  cbv zeta in W. rewrite <- Hroi in W. exact W.
+Qed.
+
+Lemma nonlinear_separated c back fwd scale_at ss ds padding align r :
+  reproject_nonlinear c back fwd scale_at ss ds padding align = Ok r ->
+  (0 <= fst ss)%Z -> (0 <= snd ss)%Z -> (0 <= pad_default padding)%Z -> align_ok (norm_align align) ->
+  let pts := map back (boundary_pts ((0%Z, fst ds), (0%Z, snd ds)) 5) in
+  axis_sep (xs_of pts) (snd ss) (pad_default padding) (norm_align align) \/
+  axis_sep (ys_of pts) (fst ss) (pad_default padding) (norm_align align) ->
+  roi_empty (roi_src r) = true /\ roi_dst r = ((0, 0), (0, 0))%Z /\ read_shrink r = 1%Z /\ scale r = 0.
+Proof.
+  intros Hr S1 S2 Hpad Hal pts Hs.
+  destruct (reproject_nonlinear_cases _ _ _ _ _ _ _ _ _ Hr) as (_ & Hroi & Hsc).
+  pose proof (relative_rois_sep back fwd ss ds 5 _ _ S1 S2 Hpad Hal Hs) as W.
+  cbv zeta in W. rewrite <- Hroi in W. cbn [fst snd] in W. destruct W as [W1 W2].
+  split; [exact W1|]. split; [exact W2|].
+  destruct Hsc as [(_ & K & Sc) | (Ne & _)]; [tauto|].
+  rewrite W2 in Ne. discriminate Ne.
+Qed.
+
+Lemma nonlinear_scale c back fwd scale_at ss ds padding align r :
+  reproject_nonlinear c back fwd scale_at ss ds padding align = Ok r -> 0 < c_rs c ->
+  (roi_empty (roi_dst r) = true -> read_shrink r = 1%Z /\ scale r = 0) /\
+  (roi_empty (roi_dst r) = false ->
+     (scale r == fst (scale_xy r) \/ scale r == snd (scale_xy r)) /\
+     scale r <= fst (scale_xy r) /\ scale r <= snd (scale_xy r) /\ 0 < scale r /\
+     (1 <= read_shrink r)%Z /\ (scale r < 1 -> read_shrink r = 1%Z) /\
+     (1 <= scale r -> inject_Z (read_shrink r) - c_rs c < scale r /\ scale r < inject_Z (read_shrink r) + 1)).
+Proof.
+  intros Hr Htol.
+  destruct (reproject_nonlinear_cases _ _ _ _ _ _ _ _ _ Hr) as (_ & _ & [(E & K & S) | (E & sx & sy & Hxy & Hs & Hk)]).
+  - split; [tauto|]. intros C. congruence.
+  - split; [intros C; congruence|]. intros _. rewrite Hxy. cbn [fst snd].
+    destruct (pick_read_scale_spec _ _ _ Htol Hk) as (P0 & K1 & K2 & K3).
+    rewrite Hs in *. destruct (Qminq_spec sx sy) as (M1 & M2 & M3). tauto.
 Qed.
